@@ -54,6 +54,11 @@ class PoolGen:
     def reset(self):
         r = self.r
         unit = self.cfg.get("unit", r.choice(["1", "1", "1000000000000", "18446744073709551616", "1000000000000000000000000000000"]))
+        if self.cfg.get("unitsweep") is not None:
+            # every order of magnitude in turn: elapsed nanoseconds x price crosses 2^31, 2^53, 2^63, 2^64, ... somewhere
+            k = self.cfg["unitsweep"]
+            self.cfg["unitsweep"] = k + 1          # (the dict is shared by the sessions of one script)
+            unit = str(10 ** (k % 31)) if (k // 31) % 2 == 0 else str(2 ** ((k % 31) * 3 + 1))
         if unit == "1":
             price = self.cfg.get("price", r.choice([1, 7, 60, 61, 1000]))
         else:
@@ -169,6 +174,8 @@ class PoolGen:
         K = self.K
         if d is None:
             d = self.r.choice([1, 1, 5, 30, 59, 60, 60, 61, 90, 119, 120, 121, 300])
+            if self.cfg.get("unitsweep") is not None:
+                d = self.r.choice([1, 1, 2, 3, 5, 9, 16, 30, 60, 61])
             if K > 1:   # fractions of a second around the same boundaries
                 d = max(1, d * K + self.r.choice([0, 0, -1, 1, 2, -(K // 2)])) if self.r.random() < 0.7 else self.r.choice([1, 2, 3, K - 1, K + 1])
         self.emit({"op": "Sleep", "d": d})
@@ -401,10 +408,25 @@ class PoolGen:
             self.startup_burst()
         if self.cfg.get("staircase") and r.random() < 0.7:
             self.staircase()
+        if self.cfg.get("unitsweep") is not None:
+            self.ladder()
         for _ in range(nops):
             self.step()
             if self.cfg.get("longsleep") and self.conf["unit"] == "1" and self.now < 50000 and r.random() < 0.02:
                 self.sleep(100000)     # a very large elapsed time
+
+    def ladder(self):
+        """keep-alives after exactly 1, 2, 3, 5, 9, 16, 30 s: with the unit sweep, elapsed x price lands on both
+        sides of every power of two for some unit"""
+        r = self.r
+        c, h = r.choice(CLIENTS), r.choice(HOSTS)
+        self.connect(h, full=True)
+        self.connect(c, full=False)
+        self.emit(self.signed({"op": "Update", "conn": self.conn_for(c), "peers": [h], "block": 1}, c))
+        for d in [1, 2, 3, 5, 9, 16, 30]:
+            self.sleep(d)
+            self.emit(self.signed({"op": "Update", "conn": self.conn_for(h), "peers": [c], "block": 1}, h))
+            self.emit(self.signed({"op": "Update", "conn": self.conn_for(c), "peers": [h], "block": 1}, c))
 
     def staircase(self):
         """a client's balance walks down one unit per keep-alive across the minimum: at the minimum it must
@@ -443,6 +465,18 @@ class PoolGen:
         if len(reqs) >= 2:
             self.emit({"op": "Burst", "reqs": reqs})
             self.emit({"op": "Burst", "reqs": [dict(q, nonce=q["nonce"] + 1) for q in reqs]})
+        # nodes that have no wallet yet are linked to one while credit is being booked to them: the trial credit
+        # moves to the wallet, and nothing booked meanwhile may be lost on the way
+        r = self.r
+        fresh = [n for n in NODES if n not in self.linked]
+        if fresh:
+            reqs = []
+            for n in r.sample(fresh, min(len(fresh), r.choice([1, 2, 3]))):
+                for _ in range(r.choice([2, 3, 4])):
+                    reqs.append({"op": "AddNodeBalance", "id": n, "amt": r.choice([1, 3, 7])})
+                reqs.insert(r.randrange(len(reqs)), {"op": "AddAccountNode", "acct": r.choice(ACCTS), "id": n})
+                self.linked[n] = True
+            self.emit({"op": "Burst", "reqs": reqs})
 
 
 def stack_script(seed, ntraces, nops, driver, workdir):
